@@ -129,6 +129,28 @@ def _parse_int(x: str) -> int:
     return int(x)
 
 
+def _is_base64_data(previous_tokens: List[str], current_token: str) -> bool:
+    """Return True if the token being read is base64 encoded data.
+
+    "/" is part of the base64 alphabet, so "//" inside `base64(AA//BB)`, `b64(AA//BB)`,
+    `base64 AA//BB` or `b64 AA//BB` is data and does not start a comment.
+
+    Args:
+        previous_tokens: tokens of the line read so far.
+        current_token: characters of the token being read.
+
+    Returns:
+        True if the current token is base64 encoded data.
+    """
+    if current_token.startswith("base64(") or current_token.startswith("b64("):
+        return True
+    return (
+        current_token != ""
+        and len(previous_tokens) > 0
+        and previous_tokens[-1] in ("base64", "b64")
+    )
+
+
 def _split_instruction_into_tokens(line: str) -> List[str]:
     """Split given instruction into tokens.
 
@@ -176,7 +198,10 @@ def _split_instruction_into_tokens(line: str) -> List[str]:
                 i += 1
             else:
                 raise ParseError(f"missing closing qoute {line}")
-        elif line[i : i + 2] == "//":
+        elif line[i : i + 2] == "//" and not _is_base64_data(fields, line[start:i]):
+            if start != i:
+                # comment without a whitespace before it
+                fields.append(line[start:i])
             fields.append(line[i:])
             return fields
         else:
